@@ -308,7 +308,44 @@ func Run(c *vl.Ctx) {
 		}
 	}
 	r := prog.New(c)
-	obs := r.Observe(all, "native", nil)
+	r.Prefilter = true
+	// A base and its variants declare the same names, so they cannot share a packed program:
+	// cases are observed in the order (rank within the base, base), which puts 48 different
+	// bases into every pack.
+	perm := make([]int, 0, len(all))
+	{
+		// a base keeps its C01/ or C04/ id, its variants are renamed C09/...
+		bp := 0
+		var groups [][]int
+		for i := range all {
+			if i == 0 || strings.HasPrefix(all[i].ID, "C01/") || strings.HasPrefix(all[i].ID, "C04/") {
+				groups = append(groups, nil)
+				bp = len(groups) - 1
+			}
+			groups[bp] = append(groups[bp], i)
+		}
+		for rank := 0; ; rank++ {
+			any := false
+			for _, g := range groups {
+				if rank < len(g) {
+					perm = append(perm, g[rank])
+					any = true
+				}
+			}
+			if !any {
+				break
+			}
+		}
+	}
+	permCases := make([]*prog.Case, len(perm))
+	for j, i := range perm {
+		permCases[j] = all[i]
+	}
+	pobs := r.Observe(permCases, "native", nil)
+	obs := make([]prog.Obs, len(all))
+	for j, i := range perm {
+		obs[i] = pobs[j]
+	}
 	same := func(a, b prog.Obs) bool {
 		if a.Accepted != b.Accepted {
 			return false
